@@ -9,7 +9,7 @@ import time
 from .model import AnalysisError, norm
 
 VERIF = os.path.dirname(os.path.dirname(os.path.abspath(__file__)))
-EVIDENCE_DIR = os.path.join(VERIF, 'evidence')
+EVIDENCE_DIR = os.environ.get('NFCSA_EVIDENCE_DIR') or os.path.join(VERIF, 'evidence')     # override: seeded-change evaluation only
 REPLAY_DIR = os.path.join(EVIDENCE_DIR, 'replay')
 KNOWN_FILE = os.path.join(VERIF, 'known_findings.json')
 
